@@ -209,6 +209,22 @@ func c19GenEntry(t *rapid.T, name string) c19Entry {
 	if rapid.IntRange(0, 3).Draw(t, "withflags") == 0 {
 		e.Flags = rapid.SampledFrom([]int{2, 4, 6}).Draw(t, "flags")
 	}
+	if rapid.IntRange(0, 24).Draw(t, "aligned") == 0 && !strings.HasSuffix(name, "/") {
+		// a stored body sized so that the NEXT local header begins within a few bytes of a multiple
+		// of 64 KiB (4 KiB, 1 MiB) counted from this entry's name or from this entry's header
+		unit := rapid.SampledFrom([]int{65536, 65536, 65536, 131072, 4096, 1 << 20}).Draw(t, "alignunit")
+		from := rapid.SampledFrom([]int{len(name) + len(e.Extra), 30 + len(name) + len(e.Extra), 0}).Draw(t, "alignfrom")
+		n := unit - from - rapid.IntRange(-2, 6).Draw(t, "aligndelta")
+		if n > 0 {
+			b := make([]byte, n)
+			st := uint64(n)
+			for i := range b {
+				st = vfSplitmix(st)
+				b[i] = byte(st)
+			}
+			e.Body, e.Method, e.Stream, e.Mod = vfB(bytes.ReplaceAll(b, []byte("PK"), []byte("pk"))), 0, false, false
+		}
+	}
 	return e
 }
 
@@ -281,6 +297,14 @@ func c19GenOne(t *rapid.T) c19Case {
 				name = rapid.SampledFrom(c19Parts[fam]).Draw(t, "part")
 			case 3:
 				name = rapid.SampledFrom(append([]string{c19JarMarker}, c19APKMarkers...)).Draw(t, "mk")
+			case 4:
+				if i == 0 {
+					// a stored `mimetype` entry that names a type the library does not know: no marker
+					c.Entries = append(c.Entries, c19Entry{Name: "mimetype", Method: 0, Stream: rapid.Bool().Draw(t, "mstream"),
+						Body: vfB(rapid.SampledFrom([]string{"image/openraster", "application/x-krita", "made/up", "application/vnd.oasis.opendocument.image", "application/vnd.oasis.opendocument.database", "text/plain", "application/zip", "_rels/.rels", "x", "application/epub+zi"}).Draw(t, "unregistered"))})
+					continue
+				}
+				name = rapid.SampledFrom(c19Unrelated).Draw(t, "un")
 			default:
 				name = rapid.SampledFrom(c19Unrelated).Draw(t, "un")
 			}
